@@ -3,8 +3,9 @@
    ab822fe (type-mismatch error formatting), 3716514 (processField error no longer dropped),
    a8e03d8 (all array levels), ee2952f (nested components in the signature helper), 0917534
    (json.Unmarshal error reported), 305065f (parameter name escaped for the resource URL), 509d77b
-   (JSON type checked at every level) and 805ac6f (element descriptions of an array checked against the
-   element type, one items level per dimension).  One definition per Go function, same case order and guards;
+   (JSON type checked at every level), 805ac6f (element descriptions of an array checked against the
+   element type, one items level per dimension) and 35b0f19 (the signature helper writes the aliases uint /
+   int / fixed / ufixed in full).  One definition per Go function, same case order and guards;
    nil dereferences and index expressions are explicit [Panic].  No proofs here.
 
    External behaviour and how it enters:
@@ -403,6 +404,33 @@ Fixpoint has_prefix (pre s : bytes) : bool :=
   | _ :: _, [] => false
   end.
 
+(* the alias branch of ABIArgumentToTypeString (fix 35b0f19: aliases written in full):
+     base, dimensions := typeName, ""
+     if i := strings.IndexByte(typeName, '['); i >= 0 { base, dimensions = typeName[:i], typeName[i:] }
+     if fullName, isAlias := typeAliases[base]; isAlias { return fullName + dimensions }
+     return typeName *)
+Fixpoint before_lbrack (t : bytes) : bytes :=
+  match t with
+  | [] => []
+  | b :: r => if byte_eqb b ch_lbrack then [] else b :: before_lbrack r
+  end.
+Fixpoint from_lbrack (t : bytes) : bytes :=
+  match t with
+  | [] => []
+  | b :: r => if byte_eqb b ch_lbrack then b :: r else from_lbrack r
+  end.
+Definition typeAliases (base : bytes) : option bytes :=
+  if bytes_eqb base (ascii_bytes "int") then Some (ascii_bytes "int256")
+  else if bytes_eqb base (ascii_bytes "uint") then Some (ascii_bytes "uint256")
+  else if bytes_eqb base (ascii_bytes "fixed") then Some (ascii_bytes "fixed128x18")
+  else if bytes_eqb base (ascii_bytes "ufixed") then Some (ascii_bytes "ufixed128x18")
+  else None.
+Definition alias_in_full (typeName : bytes) : bytes :=
+  match typeAliases (before_lbrack typeName) with
+  | Some fullName => fullName ++ from_lbrack typeName
+  | None => typeName
+  end.
+
 (* ABIArgumentToTypeString(component.Type, component.Components) for a component (the recursive
    call); typeName[5:] cannot panic after HasPrefix *)
 Fixpoint component_type_string (p : fparam) : bytes :=
@@ -410,13 +438,13 @@ Fixpoint component_type_string (p : fparam) : bytes :=
   | FParam _ typeName _ _ components =>
       if has_prefix (ascii_bytes "tuple") typeName then
         [ch_lparen] ++ join [ch_comma] (map component_type_string components) ++ [ch_rparen] ++ skipn 5 typeName
-      else typeName
+      else alias_in_full typeName
   end.
 (* ABIArgumentToTypeString(typeName, components) *)
 Definition ABIArgumentToTypeString (typeName : bytes) (components : list fparam) : bytes :=
   if has_prefix (ascii_bytes "tuple") typeName then
     [ch_lparen] ++ join [ch_comma] (map component_type_string components) ++ [ch_rparen] ++ skipn 5 typeName
-  else typeName.
+  else alias_in_full typeName.
 
 Definition ABIMethodToSignature (e : entry) : bytes :=
   e_name e ++ [ch_lparen]
